@@ -2,10 +2,12 @@ package main
 
 import (
 	"bufio"
+	"bytes"
 	"encoding/json"
 	"flag"
 	"fmt"
 	"os"
+	"os/exec"
 	"runtime"
 	"sort"
 	"strconv"
@@ -81,7 +83,7 @@ func addMap(dst, src map[string]int) {
 }
 
 func genOptsFor(tier, domain, arch string) genOpts {
-	return genOpts{tier: tier, domain: domain, bits32: arch == "386", lim: art.VerifMaxPrefixLen}
+	return genOpts{tier: tier, domain: domain, bits32: arch == "386", lim: art.VerifMaxPrefixLen, churnBias: os.Getenv("VERIF_POINTS") != ""}
 }
 
 func workerMain(args []string) int {
@@ -98,6 +100,7 @@ func workerMain(args []string) int {
 	journal := fs.String("journal", "", "")
 	deadline := fs.Int64("deadline", 0, "unix seconds; 0 = none")
 	skip := fs.String("skip", "", "run indices to skip (they killed an earlier worker)")
+	isolate := fs.Bool("isolate", false, "execute every run in a process of its own")
 	fs.Parse(args)
 	runtime.GOMAXPROCS(envInt("VERIF_PROCS", 1))
 	skipSet := map[int]bool{}
@@ -116,10 +119,16 @@ func workerMain(args []string) int {
 	shapeSet := map[uint64]struct{}{}
 	stateSet := map[uint64]struct{}{}
 	var shortest, longest, withEnv *Trace
+	var isoSamples []*Trace
 	flush := func(done bool, next int) {
 		wo.Done = done
 		wo.NextRun = next
 		wo.Samples = wo.Samples[:0]
+		for _, t := range isoSamples {
+			if len(wo.Samples) < 3 {
+				wo.Samples = append(wo.Samples, t)
+			}
+		}
 		for _, t := range []*Trace{shortest, withEnv, longest} {
 			if t != nil {
 				c := *t
@@ -159,8 +168,38 @@ func workerMain(args []string) int {
 		if jf != nil {
 			fmt.Fprintf(jf, "BEGIN %d\n", i)
 		}
+		if *isolate {
+			// one process per run: nothing a run leaves behind in package-level state
+			// can reach the next one, so a run re-executed alone is the same run
+			tmp := fmt.Sprintf("%s.run%d", *out, i)
+			cmd := exec.Command(os.Args[0], "worker", "-prop", *prop, "-seed", fmt.Sprint(*seed), "-from", fmt.Sprint(i), "-to", fmt.Sprint(i+1),
+				"-stride", "1", "-tier", *tier, "-domain", *domain, "-known", *known, "-out", tmp, "-journal", *journal)
+			cmd.Stderr = os.Stderr
+			err := cmd.Run()
+			var one workerOut
+			if err != nil || readJSON(tmp, &one) != nil {
+				os.Remove(tmp)
+				flush(false, i)
+				os.Exit(3) // the parent reads the journal: this run killed its process
+			}
+			os.Remove(tmp)
+			wo.Records = append(wo.Records, one.Records...)
+			addMap(wo.Ops, one.Ops)
+			addMap(wo.Events, one.Events)
+			addMap(wo.Probes, one.Probes)
+			addMap(wo.Skipped, one.Skipped)
+			addMap(wo.KnownHits, one.KnownHits)
+			addMap(wo.Kinds, one.Kinds)
+			wo.Upstream += one.Upstream
+			wo.Steps += one.Steps
+			if len(wo.Samples) < 3 {
+				isoSamples = append(isoSamples, one.Samples...)
+			}
+			continue
+		}
 		tr := genTrace(*prop, *seed, i, o)
 		ex := newExec(tr, kn)
+		ex.recordPoints = pointsAvailable && os.Getenv("VERIF_POINTS") != ""
 		v := ex.Run()
 		if pointsAvailable && os.Getenv("VERIF_POINTS") != "" && v == nil && ex.pointN > 0 && tr.Mode == "" {
 			// second pass: the first one counted the statement points this trace
@@ -168,16 +207,25 @@ func workerMain(args []string) int {
 			pr := NewRNG(mix2(mix2(*seed, hashStr("points/"+*prop)), uint64(i)))
 			k := pr.Range(1, 6)
 			for j := 0; j < k; j++ {
-				tr.Points = append(tr.Points, PointAct{Nth: pr.Intn(ex.pointN), Act: "gc2"})
+				tr.Points = append(tr.Points, PointAct{Nth: pickPoint(pr, ex.pointIDs, ex.pointN), Act: "gc2"})
 			}
 			if jf != nil {
 				pj, _ := json.Marshal(tr.Points)
 				fmt.Fprintf(jf, "POINTS %d %s\n", i, pj)
 			}
-			ex = newExec(tr, kn)
-			v = ex.Run()
+			reached := ex.pointN
+			pv, ptx, pst, crashed := secondPass(tr, *known, fmt.Sprint(i))
+			if crashed {
+				flush(false, i)
+				os.Exit(3) // the journal names this run and its points
+			}
+			v = pv
+			ex.tx = ptx
+			if pst != nil {
+				addMap(ex.st.Events, pst.Events)
+			}
 			wo.Probes["point_runs"]++
-			wo.Probes["points_reached_total"] += ex.pointN
+			wo.Probes["points_reached_total"] += reached
 		}
 		if pointsAvailable && os.Getenv("VERIF_POINTS") != "" && v == nil && tr.Mode == "race" && len(ex.racePoints) > 0 {
 			pr := NewRNG(mix2(mix2(*seed, hashStr("points/"+*prop)), uint64(i)))
@@ -185,16 +233,33 @@ func workerMain(args []string) int {
 			for j := 0; j < k; j++ {
 				g := pr.Range(1, len(ex.racePoints))
 				if n := ex.racePoints[g-1]; n > 0 {
-					tr.Points = append(tr.Points, PointAct{G: g, Nth: pr.Intn(n), Act: "yield"})
+					var ids []int32
+					if g-1 < len(ex.racePointIDs) {
+						ids = ex.racePointIDs[g-1]
+					}
+					tr.Points = append(tr.Points, PointAct{G: g, Nth: pickPoint(pr, ids, n), Act: "yield"})
 				}
 			}
+			// targeted pairs: a rarely executed statement reached by two goroutines —
+			// suspend one right before it, let the other run ahead through its own
+			// execution of the same statement (the window of a check-then-act)
+			tr.Points = append(tr.Points, pairedYields(pr, ex.racePointIDs, ex.racePointSteps, pr.Range(10, 40))...)
 			if jf != nil {
 				pj, _ := json.Marshal(tr.Points)
 				fmt.Fprintf(jf, "POINTS %d %s\n", i, pj)
 			}
-			ex = newExec(tr, kn)
-			v = ex.Run()
+			pv, ptx, pst, crashed := secondPass(tr, *known, fmt.Sprint(i))
+			if crashed {
+				flush(false, i)
+				os.Exit(3)
+			}
+			v = pv
+			ex.tx = ptx
+			if pst != nil {
+				addMap(ex.st.Events, pst.Events)
+			}
 			wo.Probes["point_runs"]++
+			wo.Probes["paired_yields_planned"] += len(tr.Points) - k
 		}
 		rec := runRecord{Run: i, TraceHash: tr.Hash(), Transcript: ex.tx, NonTrivial: ex.st.Mutations > 0, Steps: ex.st.Steps, Violation: v, Points: tr.Points}
 		wo.Records = append(wo.Records, rec)
@@ -329,4 +394,106 @@ func readLines(path string) []string {
 		out = append(out, sc.Text())
 	}
 	return out
+}
+
+// pickPoint chooses the ordinal of a statement point reached in the counting
+// pass. Half of the time uniformly over everything reached; half of the time a
+// statement is chosen uniformly among the DISTINCT statements reached and then
+// one of its occurrences — which puts events inside rarely executed code (grow,
+// shrink, split, merge paths), where operations have state in flight.
+func pickPoint(r *RNG, ids []int32, n int) int {
+	if len(ids) == 0 || len(ids) != n || r.Chance(1, 2) {
+		return r.Intn(n)
+	}
+	occ := map[int32][]int32{}
+	var distinct []int32
+	for i, id := range ids {
+		if _, ok := occ[id]; !ok {
+			distinct = append(distinct, id)
+		}
+		occ[id] = append(occ[id], int32(i))
+	}
+	id := distinct[r.Intn(len(distinct))]
+	o := occ[id]
+	return int(o[r.Intn(len(o))])
+}
+
+// pairedYields plans up to want targeted yields from the counting pass's record.
+func pairedYields(r *RNG, ids [][]int32, steps [][]int32, want int) []PointAct {
+	type occ struct{ g, ord, step int }
+	by := map[int32][]occ{}
+	var order []int32
+	for g := range ids {
+		if g >= len(steps) || len(steps[g]) != len(ids[g]) {
+			continue
+		}
+		for o, id := range ids[g] {
+			if len(by[id]) == 0 {
+				order = append(order, id)
+			}
+			if len(by[id]) < 400 {
+				by[id] = append(by[id], occ{g + 1, o, int(steps[g][o])})
+			}
+		}
+	}
+	// statements reached rarely, by at least two goroutines
+	var rare []int32
+	for _, id := range order {
+		os := by[id]
+		if len(os) >= 2 && len(os) <= 120 {
+			g0, multi := os[0].g, false
+			for _, o := range os {
+				if o.g != g0 {
+					multi = true
+				}
+			}
+			if multi {
+				rare = append(rare, id)
+			}
+		}
+	}
+	var out []PointAct
+	for try := 0; try < want*6 && len(out) < want && len(rare) > 0; try++ {
+		os := by[rare[r.Intn(len(rare))]]
+		a := os[r.Intn(len(os))]
+		b := os[r.Intn(len(os))]
+		if a.g == b.g || b.step <= a.step {
+			continue
+		}
+		off := 0
+		if r.Chance(1, 4) {
+			off = 1
+		}
+		out = append(out, PointAct{G: a.g, Nth: a.ord + off, Act: "yield", To: b.step})
+	}
+	return out
+}
+
+// secondPass executes a planned trace (with statement-point actions) in a fresh
+// process, so that it is exactly what a later replay of the same file executes:
+// nothing the counting pass left behind in package-level state can leak into it.
+func secondPass(tr *Trace, known string, tag string) (v *Violation, tx uint64, stats *RunStats, crashed bool) {
+	tmp := fmt.Sprintf("%s/verif-pass2-%d-%s.json", os.TempDir(), os.Getpid(), tag)
+	writeJSON(tmp, &ReplayFile{Trace: tr})
+	defer os.Remove(tmp)
+	cmd := exec.Command(os.Args[0], "exec", "-v", "-trace", tmp, "-known", known)
+	cmd.Env = os.Environ()
+	var so bytes.Buffer
+	cmd.Stdout = &so
+	cmd.Stderr = os.Stderr
+	err := cmd.Run()
+	for _, ln := range strings.Split(so.String(), "\n") {
+		if strings.HasPrefix(ln, "RESULT ") {
+			var res struct {
+				Violation  *Violation `json:"violation"`
+				Transcript uint64     `json:"tx"`
+				Stats      *RunStats  `json:"stats"`
+			}
+			if json.Unmarshal([]byte(strings.TrimPrefix(ln, "RESULT ")), &res) == nil {
+				return res.Violation, res.Transcript, res.Stats, false
+			}
+		}
+	}
+	_ = err
+	return nil, 0, nil, true
 }
